@@ -167,6 +167,7 @@ Proof.
     destruct (remove_ref_log sa (cref x)) as [Hl|[c0 [H1 [H2 [H3 [H4 [H5 H6]]]]]]]; [now left|].
     right. exists c0. split; [exact H3|]. left. split; [exact H1|]. split; [exact H2|]. split; [exact H4|]. split; [exact H5 | exact H6].
   - left. apply cb_return_log.
+  - left. destruct (Nat.eqb c 0); [reflexivity | apply (cancel_root_frame s c)].
 Qed.
 
 (* ------------------------------------------------------------------ *)
